@@ -1,12 +1,11 @@
 (* C08 -- property theorems only.  Proofs live in C08/Proofs*.v. *)
-From Coq Require Import NArith List.
-From Coq Require Import Permutation.
-From DV Require Import Base.Outcome C08.Gen C08.Model C08.Spec C08.ProofsQuery C08.ProofsBuild C08.ProofsHist C08.ProofsGood.
+From Coq Require Import NArith List Bool Permutation.
+From DV Require Import Base.Outcome C08.Gen C08.Model C08.Spec C08.ProofsQuery C08.ProofsBuild C08.ProofsHist C08.ProofsGood C08.ProofsPlain.
 Import ListNotations.
 Local Open Scope N_scope.
 
-Theorem C08_query_is_rfc_lookup : forall z q qt, n_special z = None -> nx_closed z ->
-  query z q qt = finish (get_soa z) (vspec (view_of z) q qt).
+Theorem C08_query_is_rfc_lookup : forall z q qt, clean (n_special z) = None ->
+  query z q qt = finish (get_soa z) (vspec (lview z) q qt).
 Proof. exact query_is_vspec. Qed.
 Print Assumptions C08_query_is_rfc_lookup.
 
@@ -16,8 +15,9 @@ Proof. exact build_answers_spec. Qed.
 Print Assumptions C08_build_answers_spec.
 
 Theorem C08_build_view : forall zf, wf_zone zf = true ->
-  snd (zf_build zf) = true /\ forall p, view_of (fst (zf_build zf)) p = flat_view zf p.
-Proof. exact build_view. Qed.
+  snd (zf_build zf) = true /\ (forall p, view_of (fst (zf_build zf)) p = flat_view zf p) /\
+  (forall p, lview (fst (zf_build zf)) p = flat_view zf p).
+Proof. intros zf H. destruct (build_view zf H). repeat split; auto. exact (build_lview zf H). Qed.
 Print Assumptions C08_build_view.
 
 Theorem C08_build_order_independent : forall N N' C C' A A',
@@ -37,37 +37,33 @@ Theorem C08_history_independent : forall h zf, wf_zone zf = true -> represents (
 Proof. exact history_independent. Qed.
 Print Assumptions C08_history_independent.
 
+(* histories without NS / DS below the apex and without CNAME: builder, zone file,
+   ZoneUpdater (incl. DeleteAllRecords, dropped updaters), write interface *)
+Theorem C08_plain_history_tree : forall h, no_special_records h = true -> wfp (run h).
+Proof. exact plain_history_tree. Qed.
+Print Assumptions C08_plain_history_tree.
+
+Theorem C08_plain_same_answers : forall t t', wfp t -> wfp t' ->
+  (forall p, rrsets_at t p = rrsets_at t' p) -> forall q qt, query t q qt = query t' q qt.
+Proof. exact plain_same_answers. Qed.
+Print Assumptions C08_plain_same_answers.
+
+Theorem C08_plain_history_independent : forall h h',
+  no_special_records h = true -> no_special_records h' = true ->
+  (forall p, rrsets_at (run h) p = rrsets_at (run h') p) ->
+  forall q qt, query (run h) q qt = query (run h') q qt.
+Proof. exact plain_history_independent. Qed.
+Print Assumptions C08_plain_history_independent.
+
 Theorem C08_known_classes_break_representation : forall t zf p x, node_at t p = Some x ->
-  (n_special x = Some NxDomain -> ~ represents t zf) /\
-  (exists_name zf p = false -> ~ represents t zf) /\
-  (n_special x <> i_special (info_at_g (zf_normal zf) zf p) -> ~ represents t zf).
+  (is_apex p || node_exists x = true -> clean (n_special x) <> i_special (info_at_g (zf_normal zf) zf p) -> ~ represents t zf) /\
+  (node_exists x = true -> exists_name zf p = false -> ~ represents t zf).
 Proof.
-  intros t zf p x H. split; [|split].
-  - exact (marked_node_not_represented t zf p x H).
-  - exact (leftover_node_not_represented t zf p x H).
+  intros t zf p x H. split.
   - exact (special_mismatch_not_represented t zf p x H).
+  - exact (surviving_name_not_represented t zf p x H).
 Qed.
 Print Assumptions C08_known_classes_break_representation.
-
-Theorem C08_updater_descendant_nxdomain_refuted :
-  exists h q qt, a_rcode (query (run h) q qt) = rc_nxdomain /\
-                 a_rcode (query (build (content h)) q qt) = rc_noerror /\
-                 (exists r, a_content (query (build (content h)) q qt) = AData r) /\ ~ history_ok h q qt.
-Proof. exact updater_descendant_nxdomain_refuted. Qed.
-Print Assumptions C08_updater_descendant_nxdomain_refuted.
-
-Theorem C08_updater_ent_nxdomain_refuted :
-  exists h q qt, a_rcode (query (run h) q qt) = rc_nxdomain /\
-                 a_rcode (query (build (content h)) q qt) = rc_noerror /\
-                 a_content (query (build (content h)) q qt) = ANoData /\ ~ history_ok h q qt.
-Proof. exact updater_ent_nxdomain_refuted. Qed.
-Print Assumptions C08_updater_ent_nxdomain_refuted.
-
-Theorem C08_deleted_name_shadows_wildcard_refuted :
-  exists h q qt, a_rcode (query (run h) q qt) = rc_nxdomain /\
-                 (exists r, a_content (query (build (content h)) q qt) = AData r) /\ ~ history_ok h q qt.
-Proof. exact deleted_name_shadows_wildcard_refuted. Qed.
-Print Assumptions C08_deleted_name_shadows_wildcard_refuted.
 
 Theorem C08_updater_ns_not_cut_refuted :
   exists h q qt, a_aa (query (run h) q qt) = true /\
@@ -87,10 +83,3 @@ Theorem C08_special_survives_delete_refuted :
                  a_rcode (query (build (content h)) q qt) = rc_nxdomain /\ ~ history_ok h q qt.
 Proof. exact special_survives_delete_refuted. Qed.
 Print Assumptions C08_special_survives_delete_refuted.
-
-Theorem C08_stale_node_nodata_refuted :
-  (exists h q qt, a_rcode (query (run h) q qt) = rc_noerror /\
-                  a_rcode (query (build (content h)) q qt) = rc_nxdomain /\ ~ history_ok h q qt) /\
-  (content h_abort = [soa1] /\ a_rcode (query (run h_abort) [lb] T_A) = rc_noerror /\ ~ history_ok h_abort [lb] T_A).
-Proof. exact stale_node_nodata_refuted. Qed.
-Print Assumptions C08_stale_node_nodata_refuted.
